@@ -12,6 +12,11 @@ claimed = {
  "C08": ("CFG error-edge/rollback rules + guard rules in the candidate callback", "§4 C08"),
  "C09": ("value-origin rule (created objects come from the unallocated table) + lockset + CFG guards", "§4 C09"),
  "C10": ("CFG ordering/error-edge rules + freshness analysis of request fields", "§4 C10"),
+ "C11": ("sibling-agreement rule over phi operands + constant folding of the conversion functions over their SSA + writer/reader constant tables", "§4 C11"),
+ "C12": ("CFG ordering/rollback rules + interprocedural field-based alias taint of the shared configuration maps", "§4 C12"),
+ "C14": ("CFG error-edge/cleanup rules + operand-provenance rules for iptables lines + lockset", "§4 C14"),
+ "C18": ("nil-safety (dominating non-nil test) analysis + fixed-width loop/wrap rule + lock pairing/order analysis", "§4 C18"),
+ "C20": ("CFG reject-edge rules + fixed-width arithmetic rule", "§4 C20"),
  "C19": ("lockset / guarded-by analysis (interprocedural requires-summaries) + shared-map taint", "§4 C19"),
 }
 texts = json.load(open('/verif/scripts/manifest_texts.json')) if os.path.exists('/verif/scripts/manifest_texts.json') else {}
